@@ -37,3 +37,71 @@ Example c18_nonvacuous :
   split_seconds 1 3 (-1) = OK (-1, 2) /\ to_femto 1 3 1 = OK 333333333333333 /\
   join_coarse 32 60 (-61) = Some (-2) /\ join_coarse 8 60 (128 * 60) = None.
 Proof. vm_compute. repeat split; reflexivity. Qed.
+
+From CCTZ Require Import Cal CivilImpl ZoneLoad ZoneImpl SubSecondDefs SubSecond SourceSplit SourceSplitProofs.
+(* THE TEMPLATES OF time_zone.h AS CLANG READS THEM NOW (SourceSplit.v, regenerated every run by gen/ast_translate_chrono.py
+   from their INSTANTIATIONS in a probe translation unit - int64 nano/micro/milliseconds, ratio<1,3>, int32 minutes and hours,
+   int8/int16 seconds; deduction, overload resolution and common_type are clang's; the <chrono> casts and arithmetic are a
+   stated vocabulary V1-V8 of checked integer operations in the common type): split_seconds floors, join_seconds floors or
+   fails, the lookup / convert / next_transition wrappers hand the floor on, prev_transition the ceiling, format the
+   truncated femtoseconds. *)
+Theorem src_split_floors_ns : forall c,
+  int64 (c * 1) -> int64 ((c * 1) / 1000000000 * 1000000000) -> int64 ((c * 1) / 1000000000 - 1) ->
+  ss_split_seconds_ns c = OK (split_spec 1 1000000000 c) /\ 0 <= c * 1 - ((c * 1) / 1000000000) * 1000000000 < 1000000000.
+Proof. exact SourceSplitProofs.src_split_floors_ns. Qed.
+Print Assumptions src_split_floors_ns.
+Theorem src_split_floors_ms : forall c,
+  int64 (c * 1) -> int64 ((c * 1) / 1000 * 1000) -> int64 ((c * 1) / 1000 - 1) ->
+  ss_split_seconds_ms c = OK (split_spec 1 1000 c) /\ 0 <= c * 1 - ((c * 1) / 1000) * 1000 < 1000.
+Proof. exact SourceSplitProofs.src_split_floors_ms. Qed.
+Print Assumptions src_split_floors_ms.
+Theorem src_split_floors_third : forall c,
+  int64 (c * 1) -> int64 ((c * 1) / 3 * 3) -> int64 ((c * 1) / 3 - 1) ->
+  ss_split_seconds_third c = OK (split_spec 1 3 c) /\ 0 <= c * 1 - ((c * 1) / 3) * 3 < 3.
+Proof. exact SourceSplitProofs.src_split_floors_third. Qed.
+Print Assumptions src_split_floors_third.
+Theorem src_split_floors_min32 : forall c,
+  int64 (c * 60) -> int64 ((c * 60) / 1 * 1) -> int64 ((c * 60) / 1 - 1) ->
+  ss_split_seconds_min32 c = OK (split_spec 60 1 c) /\ 0 <= c * 60 - ((c * 60) / 1) * 1 < 1.
+Proof. exact SourceSplitProofs.src_split_floors_min32. Qed.
+Print Assumptions src_split_floors_min32.
+Theorem src_wrappers_floor_ms : forall A B (k : Z -> res A) (p : A -> B) c,
+  int64 (c * 1) -> int64 ((c * 1) / 1000 * 1000) -> int64 ((c * 1) / 1000 - 1) ->
+  ss_lookup_ms A k c = k ((c * 1) / 1000) /\
+  ss_next_transition_ms A k c = k ((c * 1) / 1000) /\
+  ss_convert_ms A B k p c = (do r <- k ((c * 1) / 1000) ;; OK (p r)).
+Proof. exact SourceSplitProofs.src_wrappers_floor_ms. Qed.
+Print Assumptions src_wrappers_floor_ms.
+Theorem src_next_transition_ms : forall z c r,
+  int64 (c * 1) -> int64 ((c * 1) / 1000 * 1000) -> int64 ((c * 1) / 1000 - 1) ->
+  next_transition z ((c * 1) / 1000) = OK r -> ss_next_transition_ms _ (next_transition z) c = OK r.
+Proof. exact SourceSplitProofs.src_next_transition_ms. Qed.
+Print Assumptions src_next_transition_ms.
+Theorem src_prev_transition_ms : forall z c r,
+  int64 (c * 1) -> int64 ((c * 1) / 1000 * 1000) -> int64 ((c * 1) / 1000 - 1) -> (c * 1) / 1000 < max64 ->
+  prev_transition z (if (c * 1) mod 1000 =? 0 then (c * 1) / 1000 else (c * 1) / 1000 + 1) = OK r ->
+  ss_prev_transition_ms _ (prev_transition z) c = OK r.
+Proof. exact SourceSplitProofs.src_prev_transition_ms. Qed.
+Print Assumptions src_prev_transition_ms.
+Theorem src_format_ns : forall A (k : Z -> Z -> res A) c,
+  int64 (c * 1) -> int64 ((c * 1) / 1000000000 * 1000000000) -> int64 ((c * 1) / 1000000000 - 1) ->
+  int64 (snd (split_spec 1 1000000000 c) * (1 * 10 ^ 15 / Z.gcd (1 * 10 ^ 15) 1000000000)) ->
+  ss_format_ns A k c = k ((c * 1) / 1000000000) ((snd (split_spec 1 1000000000 c) * 1 * 10 ^ 15) / 1000000000).
+Proof. exact SourceSplitProofs.src_format_ns. Qed.
+Print Assumptions src_format_ns.
+Theorem src_join_floors_min32 : forall sec, int64 sec ->
+  ss_join_seconds_min32 sec = OK (if (rep_min 32 <=? sec / 60) && (sec / 60 <=? rep_max 32) then Some (sec / 60) else None).
+Proof. exact SourceSplitProofs.src_join_floors_min32. Qed.
+Print Assumptions src_join_floors_min32.
+Theorem src_join_floors_hour32 : forall sec, int64 sec ->
+  ss_join_seconds_hour32 sec = OK (if (rep_min 32 <=? sec / 3600) && (sec / 3600 <=? rep_max 32) then Some (sec / 3600) else None).
+Proof. exact SourceSplitProofs.src_join_floors_hour32. Qed.
+Print Assumptions src_join_floors_hour32.
+Theorem src_join_exact_s8 : forall sec, int64 sec ->
+  ss_join_seconds_s8 sec = OK (if (rep_min 8 <=? sec) && (sec <=? rep_max 8) then Some sec else None).
+Proof. exact SourceSplitProofs.src_join_exact_s8. Qed.
+Print Assumptions src_join_exact_s8.
+Theorem src_join_exact_s16 : forall sec, int64 sec ->
+  ss_join_seconds_s16 sec = OK (if (rep_min 16 <=? sec) && (sec <=? rep_max 16) then Some sec else None).
+Proof. exact SourceSplitProofs.src_join_exact_s16. Qed.
+Print Assumptions src_join_exact_s16.
